@@ -89,7 +89,7 @@ def explore(
     """
     order = {K.stable_hash(c): i for i, c in enumerate(cases)}
     sched = sorted(cases, key=lambda c: -est_cost(c))
-    deadline = ctx.t0 + deadline_s
+    deadline = time.time() + deadline_s
     done: dict = {}
     status = collections.Counter()
     secs = 0.0
@@ -178,10 +178,14 @@ def confirm(ctx: Ctx, found: dict, judge: Judge) -> None:
     jobs: list = []
     plan: list = []
     for sig in sorted(found):
-        for case, rec, f in found[sig][:2]:
-            seeds = [ctx.seed, ctx.seed]
-            if f.numeric and f.dist <= O.SEMANTIC:
-                seeds += [ctx.seed + 1, ctx.seed + 2]
+        for case, rec, f in found[sig][:1]:
+            # structural findings (crash, non-native gate, width, measurement
+            # table): one re-run; numerical ones: two, plus two other seeds
+            seeds = [ctx.seed]
+            if f.numeric:
+                seeds.append(ctx.seed)
+                if f.dist <= O.SEMANTIC:
+                    seeds += [ctx.seed + 1, ctx.seed + 2]
             plan.append((sig, case, rec, f, seeds))
             for s in seeds:
                 jobs.append((case, s, 'thorough', False))
@@ -201,9 +205,11 @@ def confirm(ctx: Ctx, found: dict, judge: Judge) -> None:
         ]
         others = [
             any(g.sig == sig for g in judge(case, r))
-            for s in seeds[2:] for r in results.get((key, s), [])[:1]
+            for s in seeds if s != ctx.seed
+            for r in results.get((key, s), [])[:1]
         ]
-        reproduced = len(same_fail) >= 2 and all(same_fail)
+        need = sum(1 for s in seeds if s == ctx.seed)
+        reproduced = len(same_fail) >= need and all(same_fail)
         if not reproduced:
             ctx.add('not_reproduced_on_rerun')
             ctx.part('unconfirmed', **{sig: 1})
